@@ -83,11 +83,18 @@ let eval (a : string list) : string =
     let stream = if cut = "-" then stream else take (int_of_n (n_of_hex cut)) stream in
     let st = ref { closed = false; corr = z_of_int 1; cfg_topic = topic; offset = z_of_int (-1) } in
     let s = ref stream in
+    let inflight = ref (z_of_int 0) in
+    let spun = ref false in
     let toks = List.map (fun (api, ver, o) ->
-      let ((st', r), s') = conn_do !st o !s in
-      st := st'; s := s';
+      if !spun then "spin~0" else
+      (* conn_do_i threads Conn.inflight; with a balanced counter it is conn_do (theorem
+         C11_inflight_zero_detector_enabled) and never spins *)
+      let (((st', n'), out), s') = conn_do_i (!st, !inflight) o !s in
+      st := st'; s := s'; inflight := n';
       if not (negotiate_ok api ver) then "NEGOTIATE-MISMATCH" else
-      pr_result api ver r ^ "~" ^ (if st'.closed then "1" else "0")) ops in
+      match out with
+      | Spins -> spun := true; "spin~" ^ (if st'.closed then "1" else "0")
+      | Returns r -> pr_result api ver r ^ "~" ^ (if st'.closed then "1" else "0")) ops in
     String.concat " " toks
   | _ -> "BADCASE"
 
